@@ -8,4 +8,6 @@ def main : IO Unit := runDriver fun
   | "rwfind" :: args => RW.handle "rwfind" args
   | "rwsched" :: args => RW.handle "rwsched" args
   | "rwevents" :: args => RW.handle "rwevents" args
+  | "rwrefuse" :: args => RW.handle "rwrefuse" args
+  | "rwrefsched" :: args => RW.handle "rwrefsched" args
   | _ => none
